@@ -104,6 +104,28 @@ theorem C03_moves_preserve (w : World) (c : MoveCall) (hI : w.WInv = true) (ha :
     specC03Move w (runMoveCall w c) = true :=
   WInv_of_specC12 hI ha hact hsp (C12_moves w c hI ha hact hsp)
 
+/-- **C03, a move call for an agent that is not active**: for EVERY action value the call raises or returns a
+world satisfying the invariant (it is the world it was given, `C12_inactive_mover`). -/
+theorem C03_inactive_mover (w : World) (c : MoveCall) (hI : w.WInv = true)
+    (hin : (w.stOf c.agent).active = false) : specC03MoveAny w c (runMoveCall w c) = true := by
+  have h := C12_inactive_mover_any w c hI hin
+  simp only [specMoveAny, hin, Bool.false_eq_true, if_false] at h
+  simp only [specC03MoveAny, hin, Bool.false_eq_true, if_false, hI, Bool.not_true, Bool.false_or]
+  cases hr : runMoveCall w c with
+  | error e => rfl
+  | ok o =>
+    rw [hr] at h
+    simp only [beq_iff_eq] at h
+    simp only [h]; exact hI
+
+/-- **C03, moves, any agent**: the invariant clause the driver judges for every real `process_action` call -
+for every world satisfying the invariant, every agent (active or not) and every action of the action space. -/
+theorem C03_moves_any (w : World) (c : MoveCall) (hI : w.WInv = true) (ha : c.agent < w.n)
+    (hsp : c.inSpace w = true) : specC03MoveAny w c (runMoveCall w c) = true := by
+  cases hact : (w.stOf c.agent).active with
+  | true => rw [specC03MoveAny_active w c _ hact]; exact C03_moves_preserve w c hI ha hact hsp
+  | false => exact C03_inactive_mover w c hI hact
+
 /-! ## Resets establish the invariant (state components in any order) -/
 
 /-- what no component changes -/
